@@ -57,6 +57,20 @@ def run(payload):
                 fail("volume", grid, volume=float(grid.volume), cells=float(np.sum(grid.cell_volumes)), exact=float(vol))
             if not np.isclose(grid.integrate(1), vol, rtol=1e-10):
                 fail("integrate_one", grid)
+            # integrating 1 over selected axes (given as non-negative or negative int, or tuple) gives the measure of
+            # those axes: the result times the measure of the remaining axes is the volume
+            if isinstance(grid, CartesianGrid) and grid.num_axes > 1:
+                ones = np.ones(grid.shape)
+                for a in range(grid.num_axes):
+                    length = grid.axes_bounds[a][1] - grid.axes_bounds[a][0]
+                    for spec in (a, a - grid.num_axes, (a,), [a - grid.num_axes]):
+                        try:
+                            part = grid.integrate(ones, axes=spec)
+                        except Exception as e:
+                            fail("integrate_axes_error", grid, axes=repr(spec), error=f"{type(e).__name__}: {e}")
+                            continue
+                        if not np.allclose(part, length, rtol=1e-10):
+                            fail("integrate_one_over_selected_axes", grid, axes=repr(spec), got=float(np.ravel(part)[0]), measure_of_axis=float(length))
             f = ScalarField(grid, rng.uniform(0, 1, grid.shape))
             if grid.num_axes > 1:
                 for ax in grid.axes:
@@ -82,6 +96,16 @@ def run(payload):
                 p = grid.get_random_point(coords="cartesian")
                 if not grid.contains_point(p):
                     fail("random_point_contained", grid, point=np.asarray(p).tolist())
+            # non-default options: distance from the boundaries, also from the inner one
+            bd = 0.2 * min(float(b[1] - b[0]) for b in grid.axes_bounds)
+            for kw in ({"boundary_distance": bd}, {"boundary_distance": bd, "avoid_center": True}):
+                for coords in ("cartesian", "grid", "cell"):
+                    try:
+                        p = grid.get_random_point(coords=coords, rng=rng, **kw)
+                    except (TypeError, RuntimeError, NotImplementedError):
+                        continue  # option not offered by this grid class / no admissible point
+                    if not np.all(grid.contains_point(p, coords=coords)):
+                        fail("random_point_contained", grid, point=np.asarray(p).tolist(), coords=coords, options=repr(kw))
             # normalize_point
             pts = rng.uniform(-3, 3, (6, grid.num_axes)) * np.array([b[1] - b[0] for b in grid.axes_bounds]) + np.array([b[0] for b in grid.axes_bounds])
             norm = grid.normalize_point(pts.copy())
@@ -101,6 +125,13 @@ def run(payload):
             d21 = grid.distance(c2, c1, coords="cartesian")
             if not np.isclose(d12, d21, rtol=1e-9, atol=1e-12):
                 fail("distance_symmetric", grid, d12=float(d12), d21=float(d21))
+            # points given as integers (lists of ints, integer arrays) are positions like any other
+            if isinstance(grid, CartesianGrid):
+                p_int = np.array([int(np.floor(x)) for x in c1]); q_int = np.array([int(np.ceil(x)) + 1 for x in c2])
+                d_int = grid.distance(p_int, q_int, coords="cartesian")
+                d_flt = grid.distance(p_int.astype(float), q_int.astype(float), coords="cartesian")
+                if not np.isclose(d_int, d_flt, rtol=1e-9, atol=1e-12):
+                    fail("distance_of_integer_typed_points", grid, p1=p_int.tolist(), p2=q_int.tolist(), got=float(d_int), want=float(d_flt))
             # periodic directions in Cartesian space
             shifts = []
             if isinstance(grid, CartesianGrid):
